@@ -4,6 +4,7 @@ import Srtla.Lemmas.ForwardStep
 import Srtla.Lemmas.RunLevelRelay
 import Srtla.Lemmas.TrackerTie
 import Srtla.Lemmas.SysInvAcct
+import Srtla.Lemmas.ReloadProjection
 /-!
 # Reload inside the shell model (`Ev.reload` = `apply_connection_changes`): the property-level statements
 
@@ -846,5 +847,117 @@ example :
     ids (step s (.reload 9 [1] [])).1.links = [5] ∧
       clientLog (run s [.reload 9 [1] [], .uplink 10 5 exData]).2 = [exData] := by
   decide +kernel
+
+/-! ## 8. The two hand-written models of `apply_connection_changes` agree (round 8)
+
+`Reload.applyChanges` (`Model/Reload.lean`, C19's model, tied to the code by component `reload`) and
+`Sys.applyConnectionChanges` (the event `Ev.reload` of the shell model, tied to the code by component `sys`) are two
+copies of one Rust function over different representations.  `Lemmas/ReloadProjection.lean` relates them: `Proj` maps
+a shell state to a state of C19's model (links ↦ conn id, address text `ipOf addr`, label `mk (ipOf addr)`, an
+arbitrary token `stOf l` of the whole record; same `last_selected_idx`; slot-wise the same tracker; the same I/O KEY
+SET) and the reload step commutes with it.  The ONE side condition: label equality is address equality (`hinj`; true
+of the production label: `C19_mkLabel_injective`).  No input on which the two models differ exists under it. -/
+
+open Srtla.ReloadProj in
+/-- **The projection commutes with the reload step.**  `s` a shell state, `r` a state of C19's model with
+`Proj ipOf mk stOf s r`; any clock, any desired address list (duplicates, empty, permuted), any outcome list.  With
+`s'` the shell state after `Ev.reload now addrs outs` and `r'` the state of C19's model after `applyChanges` on the
+projected inputs (addresses through `ipOf`; attempt `k` with the same success / failure and drawn id, the state token
+of a created link = the token of `FLink.newUplink id a now`: `projOuts`):
+* the links of `r'` are the links of `s'` projected, in order (so: same survivors with the same token = whole record
+  unchanged, same removed set, same created links at the same positions);
+* `last_selected_idx` agrees; the trackers are slot-wise equal and answer EVERY query `get seq t` alike;
+* the I/O maps have the same key set; `pending` of C19's model is untouched;
+* hence `Proj ipOf mk stOf s' r'` again (the relation is an invariant of any sequence of reloads). -/
+theorem C19_sys_reload_projects (ipOf : Nat → Reload.Ip) (mk : Reload.Ip → Reload.Label) (stOf : FLink F → Nat)
+    (hinj : Function.Injective fun a => mk (ipOf a)) (sock : Nat → Nat) (s : Sys F) (r : Reload.Sys)
+    (h : Proj ipOf mk stOf s r) (now : Nat) (addrs : List Nat) (outs : List (Option Nat)) :
+    let s' := (step s (.reload now addrs outs)).1
+    let r' := Reload.applyChanges mk r (addrs.map ipOf) (projOuts sock stOf now (neededAddrs s.links addrs) outs)
+    r'.links = s'.links.map (projLink ipOf mk stOf) ∧ r'.lastSel = s'.lastSelected ∧
+    TrkRel s'.trk r'.tracker ∧ (∀ seq t, r'.tracker.get seq t = s'.trk.get seq t) ∧
+    (∀ k, k ∈ r'.io.keys ↔ k ∈ s'.io) ∧ r'.pending = r.pending ∧ Proj ipOf mk stOf s' r' := by
+  intro s' r'
+  have hp : Proj ipOf mk stOf s' r' := applyChanges_projects ipOf mk stOf hinj sock s r h now addrs outs
+  exact ⟨hp.links, hp.lastSel, hp.trk, fun seq t => hp.trk.get seq t, hp.io, rfl, hp⟩
+
+open Srtla.ReloadProj in
+/-- The same between the two STEP functions: the shell's `Ev.reload` against C19's housekeeping tick when a SIGHUP
+queued that list (`pending = some (addrs.map ipOf)`); C19's model then has `pending = none`. -/
+theorem C19_sys_reload_projects_step (ipOf : Nat → Reload.Ip) (mk : Reload.Ip → Reload.Label) (stOf : FLink F → Nat)
+    (hinj : Function.Injective fun a => mk (ipOf a)) (sock : Nat → Nat) (s : Sys F) (r : Reload.Sys)
+    (h : Proj ipOf mk stOf s r) (now : Nat) (addrs : List Nat) (outs : List (Option Nat))
+    (hp : r.pending = some (addrs.map ipOf)) :
+    Proj ipOf mk stOf (step s (.reload now addrs outs)).1
+      (Reload.step mk r (.tick (projOuts sock stOf now (neededAddrs s.links addrs) outs))) ∧
+    (Reload.step mk r (.tick (projOuts sock stOf now (neededAddrs s.links addrs) outs))).pending = none :=
+  step_projects ipOf mk stOf hinj sock s r h now addrs outs hp
+
+section exProjection
+open Srtla.ReloadProj
+
+/-- Example address text: `a` times the letter `x` (injective by length). -/
+def exIp (a : Nat) : Reload.Ip := String.ofList (List.replicate a 'x')
+/-- Example label: the production format. -/
+def exMk : Reload.Ip → Reload.Label := Reload.mkLabel "h" 5000
+/-- Example state token: read off the record (not injective — nothing needs it to be). -/
+def exTok (l : FLink Int) : Nat := l.queue.length + 10 * l.core.log.length + 100 * l.core.window.toNat
+
+theorem exInj : Function.Injective fun a => exMk (exIp a) := by
+  intro a b h
+  have h1 : exIp a = exIp b := Reload.mkLabel_injective "h" 5000 h
+  have := congrArg String.length h1
+  simpa [exIp] using this
+
+/-- C19's model state belonging to `exS`: three links, tracker entry for sequence number 41, the list of `exReload`
+queued. -/
+def exR : Reload.Sys :=
+  projSys exIp exMk exTok exS (Reload.Tracker.insert [] 41 2 4950) (some ([3, 1, 4, 4, 5, 6].map exIp))
+
+theorem exProj : Proj exIp exMk exTok exS exR :=
+  proj_projSys exIp exMk exTok exS _ _ (TrkRel.empty.insert 41 2 4950)
+
+-- non-vacuity of `C19_sys_reload_projects` / `_step`: the hypotheses hold of the non-pristine `exS`, its projection
+-- `exR` and the injective production label; the reload `exReload` removes link 2 and adds 7@4, 8@6 on the shell side,
+-- and by the theorem the same holds of C19's model (ids, tokens: the retained link 1 keeps the token of its WHOLE
+-- record - queue 1, log 1, window 25000 -, the created links have the token of the constructor)
+example :
+    Function.Injective (fun a => exMk (exIp a)) ∧ Proj exIp exMk exTok exS exR ∧
+    exR.pending = some ([3, 1, 4, 4, 5, 6].map exIp) ∧
+    (step exS exReload).1.links.map (fun l => (l.core.connId, l.addr, exTok l)) =
+      [(1, 1, 2500011), (3, 3, 2000000), (7, 4, 2000000), (8, 6, 2000000)] ∧
+    (step exS exReload).1.lastSelected = none ∧ (step exS exReload).1.io = [1, 3, 7, 8] :=
+  ⟨exInj, exProj, rfl, by decide +kernel, by decide +kernel, by decide +kernel⟩
+
+example := C19_sys_reload_projects exIp exMk exTok exInj (fun _ => 0) exS exR exProj 9 [3, 1, 4, 4, 5, 6]
+  [some 7, none, some 8]
+example := C19_sys_reload_projects_step exIp exMk exTok exInj (fun _ => 0) exS exR exProj 9 [3, 1, 4, 4, 5, 6]
+  [some 7, none, some 8] rfl
+
+/-- What the theorem gives on the example, on the side of C19's model (through the projection, not by evaluating
+strings): the conn ids and state tokens of its links after the reload, its anchor, its I/O key set. -/
+example :
+    let r' := Reload.applyChanges exMk exR ([3, 1, 4, 4, 5, 6].map exIp)
+      (projOuts (fun _ => 0) exTok 9 (neededAddrs exS.links [3, 1, 4, 4, 5, 6]) [some 7, none, some 8])
+    r'.links.map (fun l => (l.connId, l.state)) = [(1, 2500011), (3, 2000000), (7, 2000000), (8, 2000000)] ∧
+    r'.lastSel = none ∧ (∀ k, k ∈ r'.io.keys ↔ k ∈ [1, 3, 7, 8]) := by
+  intro r'
+  obtain ⟨h1, h2, -, -, h5, -, -⟩ := C19_sys_reload_projects exIp exMk exTok exInj (fun _ => 0) exS exR exProj 9
+    [3, 1, 4, 4, 5, 6] [some 7, none, some 8]
+  refine ⟨?_, ?_, ?_⟩
+  · show (Reload.applyChanges exMk exR _ _).links.map _ = _
+    rw [h1, List.map_map]
+    show (step exS exReload).1.links.map (fun l => (l.core.connId, exTok l)) = _
+    decide +kernel
+  · show (Reload.applyChanges exMk exR _ _).lastSel = _
+    rw [h2]
+    decide +kernel
+  · intro k
+    show k ∈ (Reload.applyChanges exMk exR _ _).io.keys ↔ _
+    rw [h5 k]
+    have : (step exS (.reload 9 [3, 1, 4, 4, 5, 6] [some 7, none, some 8])).1.io = [1, 3, 7, 8] := by decide +kernel
+    rw [this]
+
+end exProjection
 
 end Srtla.Props.SysReload
